@@ -40,6 +40,7 @@ REF = {
     'reset': {'Running': {('Running', 'raise RoutineException')}, 'Init': {('Init', 'return')}, 'Suspended': {('Init', 'return')},
               'Paused': {('Init', 'return')}, 'Done': {('Init', 'return')}},
     'next': {'Paused': {('Paused', 'raise PausedStream')},
+             'Running': {('Running', 'raise RoutineException')},
              'Done': {('Done', 'raise StopStream'), ('Done', 'return')},
              'Init': {('Suspended', 'return'), ('Done', 'raise StopStream'), ('Init', 'return'), ('Done', 'return'), ('Done', 'raise *'),
                       ('Done', 'raise KeyboardInterrupt')},
@@ -179,6 +180,11 @@ def rule_fsm(ctx):
     for name in ('stop', 'reset'):
         f = r.methods[name]
         ctx.ob('C11.fsm', f'{f.fq}:drops-iterator', 'self._iterator = None' in full(f.node), f'{name} drops the generator', f.node, f.module)
+    # the recorded terminal value belongs to one run: every writer of _terminal_value other than reset records a value raised in
+    # this run, and reset clears it (otherwise a later normal exhaustion is followed by the stale value instead of StopStream)
+    f = r.methods['reset']
+    ctx.ob('C11.fsm', f'{f.fq}:clears-terminal-value', 'self._terminal_value = self._SENTINEL' in full(f.node),
+           'reset() must forget the terminal value of the previous run', f.node, f.module)
     nx = r.methods['next']
     src = full(nx.node)
     ctx.ob('C11.fsm', f'{nx.fq}:terminal-value',
@@ -340,6 +346,10 @@ def run(ctx):
 
 
 MUTANTS = [
+    dict(rule='C11.fsm', name='(fix reverted) next() re-entered from the running routine', file='sc3/base/stream.py',
+         old="            if self.state == self.State.Running:\n                raise RoutineException('cannot be resumed within itself')\n\n", new=""),
+    dict(rule='C11.fsm', name='(fix reverted) reset keeps the terminal value', file='sc3/base/stream.py',
+         old="                self._terminal_value = self._SENTINEL\n                self._clock = clk.SystemClock  # Default clock.\n                self.state = self.State.Init", new="                self._clock = clk.SystemClock  # Default clock.\n                self.state = self.State.Init"),
     dict(rule='C11.fsm', name='failure arm narrowed to Exception (seed C11-c)', file='sc3/base/stream.py',
          old="            except:\n                self.state = self.State.Done  # Failure.", new="            except Exception:\n                self.state = self.State.Done  # Failure."),
     dict(rule='C11.fsm', name='pause from Done becomes Paused', file='sc3/base/stream.py',
